@@ -583,6 +583,25 @@ class State:
                         for cond in br.cond(sb):
                             if cond[0] == "bin" and cond[1] == "Ge" and self.same_len_base(cond[2], base) and cond[3] == adj and ge1 and edge_dominates(b, (sb, be[0]), blk):
                                 return "P-guarded-index: a[len - k] under len >= k with k = max(_, 1) >= 1"
+        # a[i] under the dominating test i < a.len()
+        if len(ix) == 1:
+            x = next(iter(ix))
+            br = self.br(b)
+            for sb, sw in br.switches():
+                be = br.bool_edges(sb)
+                if not be:
+                    continue
+                for cond in br.cond(sb):
+                    if cond[0] != "bin":
+                        continue
+                    lt = cond[1] == "Lt" and cond[2] == x and self.same_len_base(cond[3], base)
+                    gt = cond[1] == "Gt" and cond[3] == x and self.same_len_base(cond[2], base)
+                    ge = cond[1] == "Ge" and cond[2] == x and self.same_len_base(cond[3], base)     # false edge
+                    le = cond[1] == "Le" and cond[3] == x and self.same_len_base(cond[2], base)     # false edge
+                    if (lt or gt) and edge_dominates(b, (sb, be[0]), blk):
+                        return "P-guarded-index: a[i] under the dominating test i < a.len()"
+                    if (ge or le) and edge_dominates(b, (sb, be[1]), blk):
+                        return "P-guarded-index: a[i] on the false edge of i >= a.len()"
         # a[i] with Some(i) = a.len().checked_sub(k), k >= 1: i = len - k < len
         if len(ix) == 1:
             x = next(iter(ix))
